@@ -575,8 +575,10 @@ def run_impl(sc, url="ws://example.test/chat", ws_kwargs=None, check_alias=True)
             return None
 
         mech = None
+        with_kept = any(a[0] == "abandon" and a[1] == "with-kept" for acts in app.values() for a in acts)
         try:
-            gen = ws.connect(**kw)
+            # ('with-kept': connect() is called inside the with-block, below)
+            gen = ws.connect(**kw) if not with_kept else None
             run.gen = gen
             try:
                 held = _HELD.pop(ws, None)
@@ -587,7 +589,26 @@ def run_impl(sc, url="ws://example.test/chat", ws_kwargs=None, check_alias=True)
                 del held
                 gc.collect()
             try:
-                if any(a[0] == "abandon" and a[1] == "with" for acts in app.values() for a in acts):
+                if with_kept:
+                    # `with ws: events = ws.connect(); for event in events: ...` and an exception leaves the block: the iterator
+                    # is still referenced (a local variable, a traceback) when __exit__ runs, so it is __exit__ -- not the
+                    # finalisation of the generator -- that has to close the socket
+                    try:
+                        with ws:
+                            gen = ws.connect(**kw)
+                            run.gen = gen
+                            for event in gen:
+                                run.events.append(event)
+                                run.log([0, canon_event(event)])
+                                i = idx[0]
+                                idx[0] += 1
+                                m = do_calls(app.get(i, ()))
+                                if m is not None:
+                                    raise Boom()
+                    except Boom:
+                        mech = "with-kept"
+                    run.sock_closed_after_with = (run.sock.closed if run.sock else None) if mech else None
+                elif any(a[0] == "abandon" and a[1] == "with" for acts in app.values() for a in acts):
                     try:
                         with ws:
                             for event in gen:
@@ -789,7 +810,7 @@ def to_sx(sc):
             elif k == "close":
                 acts.append([4, [] if a[1] is None else [a[1]], a[2]])
             else:
-                acts.append([5, 1 if a[1] == "with" else 0])
+                acts.append([5, 1 if a[1] in ("with", "with-kept") else 0])
         app.append([i, acts])
     return [10, c, CN_CODES[sc.get("connect", "ok")], steps, app, list(sc.get("keys", [])),
             [WF_CODES[w] for w in sc.get("wfaults", [])],
